@@ -40,6 +40,28 @@ def same_schema(s1, s2) -> bool:
                         if isinstance(args, dict):
                             out.extend((name, k, a) for a in args)
         return out
+    # descriptions and deprecation reasons, element by element (identical prints do not imply this:
+    # the printer may normalise a text in a way that the re-print of the rebuilt schema repeats)
+    def texts(s):
+        out = [("schema", s.description)]
+        for name, t in s.type_map.items():
+            if name.startswith("__"):
+                continue
+            out.append((name, t.description))
+            for attr in ("fields", "values"):
+                m = getattr(t, attr, None)
+                if isinstance(m, dict):
+                    for k, v in m.items():
+                        out.append((name, k, v.description, getattr(v, "deprecation_reason", None)))
+                        args = getattr(v, "args", None)
+                        if isinstance(args, dict):
+                            out.extend((name, k, a, av.description, av.deprecation_reason) for a, av in args.items())
+        for d in s.directives:
+            out.append(("@" + d.name, d.description))
+            out.extend(("@" + d.name, a, av.description, av.deprecation_reason) for a, av in d.args.items())
+        return out
+    if sorted(texts(s1), key=repr) != sorted(texts(s2), key=repr):  # (order is compared separately below)
+        return False
     custom = lambda s: [x for x in order(s) if (x if isinstance(x, str) else x[0]) not in ("String", "Int", "Float", "Boolean", "ID")]
     return custom(s1) == custom(s2)
 
@@ -108,11 +130,12 @@ def family_roundtrip(b0: bool, b1: bool, b2: bool, b3: bool, b4: bool, b5: bool,
         return verdict(False)
 
 
-ADVERSARIAL = ["", "x", " lead", "trail ", 'q"uote', "back\\slash", "line\nbreak", "a b", "a b", "\x1cfs", "a\x85b", "\x0bvt", '"""', "tab\tx", "\n x", "x\n", "é漢😀", "\x00nul", "  \n  indented\n    more", "a\rb"]
+ADVERSARIAL = ["", "x", " lead", "trail ", 'q"uote', "back\\slash", "line\nbreak", "a b", "a b", "\x1cfs", "a\x85b", "\x0bvt", '"""', "tab\tx", "\n x", "x\n", "é漢😀", "\x00nul", "  \n  indented\n    more", "a\rb",
+               "one\n \ntwo", "a\n\t\nb", "first\n   \n  second\n\n third"]
 
 
 def _programmatic(di, ri, dk) -> bool:
-    s1 = programmatic(ADVERSARIAL[di], None if ri == 0 else ADVERSARIAL[ri], dk)
+    s1 = programmatic(ADVERSARIAL[di], None if ri == 0 else ("" if ri == 6 else ADVERSARIAL[ri]), dk)  # ri 6: deprecated with an empty reason
     if validate_schema(s1):
         return False
     s2 = build_schema(print_schema(s1))
@@ -124,7 +147,7 @@ def programmatic_roundtrip(di: int, ri: int, dk: int) -> bool:
     and defaults given as Python values (incl. explicit None inside input objects and the Int
     minimum)."""
     di = forked(di, 0, len(ADVERSARIAL))
-    ri = forked(ri, 0, 6)
+    ri = forked(ri, 0, 7)
     dk = forked(dk, 0, 4)
     try:
         return verdict(concrete(_programmatic, di, ri, dk))
@@ -183,7 +206,7 @@ BOUNDS = {
     "quick": [
         "default value text: every string of 0..3 symbols from a 15-symbol alphabet (digits, sign, LF, CR, U+2028, quote, backslash, blank, letters) as default of an ID / String argument or input field, compared through the argument values a resolver receives",
         "description text: every string of exactly 0..2 scalar values (cells by class of the first char) in 5 positions (type, field, argument, enum value, schema); deprecation reason: every string of 0..2",
-        "512 SDL schemas (9 optional parts); 20 adversarial strings x 6 reasons x 4 default-value shapes on a programmatic schema",
+        "512 SDL schemas (9 optional parts); 23 adversarial strings (incl. interior whitespace-only lines) x 7 reasons (none, 5 texts, the empty text) x 4 default-value shapes on a programmatic schema",
     ],
     "thorough": ["description / reason text up to 3 code points"],
 }
